@@ -48,6 +48,13 @@ for _v, _mod in (("2.0", v20), ("2.1", v21)):
         _o = getattr(_mod, _n)
         TLP[(_v, _o.id)] = _o
 
+# a statement marking definition, so that marking *objects* other than the TLP constants are passed too
+STMT = "marking-definition--11111111-2222-4333-8444-555555555555"
+TLP[("2.0", STMT)] = v20.MarkingDefinition(id=STMT, created="2020-01-01T00:00:00.000Z", definition_type="statement",
+                                            definition=v20.StatementMarking(statement="s"))
+TLP[("2.1", STMT)] = v21.MarkingDefinition(id=STMT, created="2020-01-01T00:00:00.000Z", definition_type="statement",
+                                            definition=v21.StatementMarking(statement="s"))
+
 KNOWN = {"InvalidSelectorError", "MarkingNotFoundError", "TypeNotVersionableError", "ObjectNotVersionableError",
          "RevokeError", "InvalidValueError"}
 
